@@ -51,6 +51,7 @@ type optsResult struct {
 	StopHung    bool   `json:"stop_hung"`
 	WaitOK      bool   `json:"wait_returned"`
 	MustExecute bool   `json:"must_execute"`
+	Ancient     int64  `json:"overdue_head_fire_time"`
 }
 
 func runMisfire(trial int, mode string, capacity, k int, listener string) optsResult {
@@ -115,7 +116,13 @@ func runMisfire(trial int, mode string, capacity, k int, listener string) optsRe
 }
 
 func runThreshold(trial int, mode string, thr, ri time.Duration) optsResult {
-	res := optsResult{Kind: "opts", Test: "threshold", Trial: trial, Mode: mode, Listener: "none", Cap: 64, Threshold: int64(thr), RetryIvl: int64(ri),
+	return runThresholdA(trial, mode, thr, ri, 0)
+}
+
+// ancient != 0: the head of the queue is a job whose fire time is hopelessly overdue (MinInt64, -1<<62): it is
+// dropped as a misfire and the due jobs behind it are dispatched
+func runThresholdA(trial int, mode string, thr, ri time.Duration, ancient int64) optsResult {
+	res := optsResult{Ancient: ancient, Kind: "opts", Test: "threshold", Trial: trial, Mode: mode, Listener: "none", Cap: 64, Threshold: int64(thr), RetryIvl: int64(ri),
 		MustExecute: thr >= 2*time.Second}
 	mis := make(chan quartz.ScheduledJob, 64)
 	o := modeOpts(mode, 2)
@@ -131,6 +138,9 @@ func runThreshold(trial int, mode string, thr, ri time.Duration) optsResult {
 	// a stored job whose fire time is at the very end of the range (not paused): never due, never outdated
 	s.ScheduleJob(detail("far", func(context.Context) error { far.Add(1); return nil }), &scriptTrigger{next: []int64{math.MaxInt64 - 1000, math.MaxInt64 - 10}})
 	s.ScheduleJob(detail("now", func(context.Context) error { now.Add(1); return nil }), relTrigger(-time.Microsecond, time.Hour))
+	if ancient != 0 {
+		s.ScheduleJob(detail("ancient", func(context.Context) error { return nil }), &scriptTrigger{next: []int64{ancient}})
+	}
 	s.Start(context.Background())
 	s.ScheduleJob(detail("due", func(context.Context) error { due.Add(1); return nil }), relTrigger(15*time.Millisecond, time.Hour))
 	var misDue, misNow atomic.Int32
@@ -200,6 +210,19 @@ func cmdOpts() {
 			i++
 			run(func(t int) optsResult { return runThreshold(t, m, thr, ri) })
 		}
+	}
+	// a hopelessly overdue head; both orders of the two execution options
+	for _, a := range []int64{math.MinInt64, math.MinInt64 + 1, -1 << 62, -1} {
+		for _, thr := range []time.Duration{0, max, time.Hour} {
+			a, thr, m := a, thr, modes[i%3]
+			i++
+			run(func(t int) optsResult { return runThresholdA(t, m, thr, 0, a) })
+		}
+	}
+	for _, m := range []string{"blocking+limit", "limit+blocking"} {
+		m := m
+		run(func(t int) optsResult { return runThreshold(t, m, time.Hour, 0) })
+		run(func(t int) optsResult { return runMisfire(t, m, 1, 3, "never") })
 	}
 	wg.Wait()
 }
@@ -373,6 +396,14 @@ func cmdDescModes() {
 		wg.Add(1)
 		go func() { defer wg.Done(); emit(runHandover(nw[0], nw[1], seed)) }()
 	}
+	if which != "panic" {
+		for _, nk := range [][2]int{{1, 1}, {2, 1}, {2, 2}, {3, 1}, {3, 3}} {
+			nk := nk
+			wg.Add(2)
+			go func() { defer wg.Done(); emit(runRestartBusyBarrier(nk[0], nk[1], seed)) }()
+			go func() { defer wg.Done(); emit(runMisfiresThenBarrier(nk[0], nk[0]+nk[1], seed)) }()
+		}
+	}
 	wg.Wait()
 }
 
@@ -510,5 +541,252 @@ func cmdSlowAPI() {
 			}()
 		}
 	}
+	for _, cf := range [][2]int{{0, 1}, {0, 2}, {1, 2}, {1, 3}, {2, 4}} {
+		cf, t := cf, trial
+		trial++
+		wg.Add(1)
+		go func() { defer wg.Done(); emit(runPushFault(t, cf[0], cf[1])) }()
+	}
+	for i, h := range []string{"Size", "Head", "Size", "Head"} {
+		h, t, d := h, trial, time.Duration(150+250*(i/2))*time.Millisecond
+		trial++
+		wg.Add(1)
+		go func() { defer wg.Done(); emit(runStaleTimer(t, h, d)) }()
+	}
 	wg.Wait()
+}
+
+// ---------------------------------------------------------------------------------------------
+// round 5
+// ---------------------------------------------------------------------------------------------
+
+// C12: pool of n; k jobs of the first run are still executing (they end only when told to) when Stop(); Start()
+// happen: the new run has n workers of its own, n jobs due at once meet at a barrier of n.
+func runRestartBusyBarrier(n, k, seed int) modesResult {
+	res := modesResult{Kind: "modes", Mode: "pool", Limit: n, Test: "restart_busy_then_barrier", Bound: n, Jobs: n, Barrier: n, Seed: seed, Restart: true, Panics: k}
+	s, _ := quartz.NewStdScheduler(modeOpts("pool", n)...)
+	relOld := make(chan struct{})
+	var oldIn atomic.Int64
+	for i := 0; i < k; i++ {
+		s.ScheduleJob(detail(fmt.Sprintf("old%d", i), func(context.Context) error { oldIn.Add(1); <-relOld; return nil }), quartz.NewRunOnceTrigger(time.Millisecond))
+	}
+	parent, pc := context.WithCancel(context.Background())
+	defer pc()
+	s.Start(parent)
+	pollUntil(5*time.Second, func() bool { return oldIn.Load() >= int64(k) })
+	s.Stop()
+	s.Start(parent)
+	res.Reached, res.MaxInflight, res.Execs = barrierOfN(s, n)
+	close(relOld)
+	res.WaitOK = stopAndWait(s, 5*time.Second)
+	return res
+}
+
+// n jobs due at once on a running scheduler; reports whether all n were inside Execute together, the
+// maximum in flight among them and how many ran
+func barrierOfN(s quartz.Scheduler, n int) (bool, int64, int64) {
+	var fl inflight
+	var inside, execs atomic.Int64
+	reached := make(chan struct{})
+	var once sync.Once
+	for i := 0; i < n; i++ {
+		s.ScheduleJob(detail(fmt.Sprintf("bar%d", i), func(ctx context.Context) error {
+			fl.enter()
+			defer fl.exit()
+			execs.Add(1)
+			if inside.Add(1) >= int64(n) {
+				once.Do(func() { close(reached) })
+			}
+			defer inside.Add(-1)
+			select {
+			case <-reached:
+			case <-time.After(5 * time.Second):
+			case <-ctx.Done():
+			}
+			return nil
+		}), quartz.NewRunOnceTrigger(time.Millisecond))
+	}
+	ok := false
+	select {
+	case <-reached:
+		ok = true
+	case <-time.After(5 * time.Second):
+	}
+	return ok, fl.max.Load(), execs.Load()
+}
+
+// C12: pool of n; m >= n fetches that yield nothing to execute (jobs far beyond OutdatedThreshold: misfires),
+// then n jobs due at once meet at a barrier of n
+func runMisfiresThenBarrier(n, m, seed int) modesResult {
+	res := modesResult{Kind: "modes", Mode: "pool", Limit: n, Test: "misfires_then_barrier", Bound: n, Jobs: n, Barrier: n, Seed: seed, Panics: m}
+	s, _ := quartz.NewStdScheduler(modeOpts("pool", n)...)
+	var calls atomic.Int64
+	for i := 0; i < m; i++ {
+		tr := relTrigger(-time.Hour, time.Hour, 2*time.Hour)
+		s.ScheduleJob(detail(fmt.Sprintf("late%d", i), func(context.Context) error { return nil }), &countCalls{Trigger: tr, n: &calls})
+	}
+	s.Start(context.Background())
+	// every late job has been fetched and re-based (two trigger calls each)
+	pollUntil(3*time.Second, func() bool { return calls.Load() >= int64(2*m) })
+	time.Sleep(10 * time.Millisecond)
+	res.Reached, res.MaxInflight, res.Execs = barrierOfN(s, n)
+	res.WaitOK = stopAndWait(s, 5*time.Second)
+	return res
+}
+
+type countCalls struct {
+	quartz.Trigger
+	n *atomic.Int64
+}
+
+func (t *countCalls) NextFireTime(prev int64) (int64, error) {
+	t.n.Add(1)
+	return t.Trigger.NextFireTime(prev)
+}
+
+// ---------------------------------------------------------------------------------------------
+// C15: the loop's own re-Push fails while the misfire listener does not drain (pushfault); a loop of a stopped
+// run returns from a slow queue call after the new run has armed its tick (staletimer)
+// ---------------------------------------------------------------------------------------------
+type pushFaultQ struct {
+	quartz.JobQueue
+	failLeft atomic.Int32 // the next so many Push calls made by fetchAndReschedule fail
+	failed   atomic.Int32
+}
+
+func (q *pushFaultQ) Push(j quartz.ScheduledJob) error {
+	if callerOf() == "fetchAndReschedule" && q.failLeft.Load() > 0 {
+		if q.failLeft.Add(-1) >= 0 {
+			q.failed.Add(1)
+			return mkInjected("plain", "Push")
+		}
+	}
+	return q.JobQueue.Push(j)
+}
+
+type pushFaultResult struct {
+	Kind     string   `json:"kind"` // pushfault
+	Trial    int      `json:"trial"`
+	Cap      int      `json:"misfired_chan_cap"`
+	Fails    int      `json:"failing_repushes"`
+	Failed   int32    `json:"repushes_failed"`
+	Hung     []string `json:"calls_not_returned_within_5s"`
+	Stored   []string `json:"stored_after_faults"`
+	NotFired []string `json:"stored_jobs_not_fired_within_5s"`
+	Probe    int32    `json:"probe_execs"`
+	WaitOK   bool     `json:"wait_returned"`
+}
+
+func runPushFault(trial, capacity, fails int) pushFaultResult {
+	res := pushFaultResult{Kind: "pushfault", Trial: trial, Cap: capacity, Fails: fails}
+	q := &pushFaultQ{JobQueue: quartz.NewJobQueue()}
+	mis := make(chan quartz.ScheduledJob, capacity) // nobody listens
+	s, _ := quartz.NewStdScheduler(quartz.WithQueue(q, &sync.Mutex{}), quartz.WithOutdatedThreshold(time.Minute), quartz.WithMisfiredChan(mis),
+		quartz.WithRetryInterval(20*time.Millisecond))
+	execs := map[string]*atomic.Int64{}
+	njobs := fails + 3
+	for i := 0; i < njobs; i++ {
+		name := fmt.Sprintf("j%d", i)
+		c := &atomic.Int64{}
+		execs[name] = c
+		s.ScheduleJob(detail(name, func(context.Context) error { c.Add(1); return nil }), quartz.NewSimpleTrigger(time.Duration(20+3*i)*time.Millisecond))
+	}
+	q.failLeft.Store(int32(fails))
+	s.Start(context.Background())
+	pollUntil(3*time.Second, func() bool { return q.failed.Load() >= int32(fails) })
+	time.Sleep(60 * time.Millisecond) // the faults are over
+	res.Failed = q.failed.Load()
+	hung := func(name string, f func()) {
+		if !within(5*time.Second, f) {
+			res.Hung = append(res.Hung, name)
+		}
+	}
+	var keys []*quartz.JobKey
+	hung("GetJobKeys", func() { keys, _ = s.GetJobKeys() })
+	var probe atomic.Int32
+	if len(res.Hung) == 0 {
+		hung("ScheduleJob", func() {
+			s.ScheduleJob(detail("probe", func(context.Context) error { probe.Add(1); return nil }), relTrigger(5*time.Millisecond, time.Hour))
+		})
+	}
+	if len(res.Hung) == 0 {
+		hung("DeleteJob", func() { s.DeleteJob(quartz.NewJobKey("nope")) })
+	}
+	if len(res.Hung) == 0 {
+		before := map[string]int64{}
+		for _, k := range keys {
+			if c := execs[k.Name()]; c != nil {
+				before[k.Name()] = c.Load()
+				res.Stored = append(res.Stored, k.Name())
+			}
+		}
+		pollUntil(5*time.Second, func() bool {
+			for k, b := range before {
+				if execs[k].Load() <= b {
+					return false
+				}
+			}
+			return probe.Load() > 0
+		})
+		for k, b := range before {
+			if execs[k].Load() <= b {
+				res.NotFired = append(res.NotFired, k)
+			}
+		}
+		res.Probe = probe.Load()
+	}
+	go func() { // let a scheduler that is stuck on the channel go
+		for range mis {
+		}
+	}()
+	within(7*time.Second, func() { res.WaitOK = stopAndWait(s, 6*time.Second) })
+	return res
+}
+
+type staleTimerResult struct {
+	Kind    string `json:"kind"` // staletimer
+	Trial   int    `json:"trial"`
+	Held    string `json:"old_loop_held_in"` // Size | Head
+	DueInMs int    `json:"job_due_in_ms"`
+	Fired   int32  `json:"execs"`
+	WaitOK  bool   `json:"wait_returned"`
+	Error   string `json:"error,omitempty"`
+}
+
+// the loop of run 1 is inside a slow Size()/Head(); Stop(); Start(); a job due in `dueIn` is scheduled and the
+// new loop parks on it; only then does the slow call of the old loop return.  No API call follows.
+func runStaleTimer(trial int, heldIn string, dueIn time.Duration) staleTimerResult {
+	res := staleTimerResult{Kind: "staletimer", Trial: trial, Held: heldIn, DueInMs: int(dueIn / time.Millisecond)}
+	q := &rQueue{JobQueue: quartz.NewJobQueue(), arrive: make(chan rArrival)}
+	q.gated.Store(true)
+	s, _ := quartz.NewStdScheduler(quartz.WithQueue(q, &sync.Mutex{}), quartz.WithOutdatedThreshold(time.Hour))
+	defer func() { within(9*time.Second, func() { q.shutdown(s) }) }()
+	s.ScheduleJob(detail("far", func(context.Context) error { return nil }), relTrigger(time.Hour, 2*time.Hour))
+	s.Start(context.Background())
+	var held rArrival
+	for {
+		var a rArrival
+		select {
+		case a = <-q.arrive:
+		case <-time.After(5 * time.Second):
+			res.Error = "the loop did not reach " + heldIn
+			return res
+		}
+		if a.name == heldIn {
+			held = a
+			break
+		}
+		close(a.rel)
+	}
+	q.gated.Store(false) // the new run's calls are not stalled
+	s.Stop()
+	s.Start(context.Background())
+	var ran atomic.Int32
+	s.ScheduleJob(detail("x", func(context.Context) error { ran.Add(1); return nil }), relTrigger(dueIn, 3*time.Hour))
+	time.Sleep(40 * time.Millisecond) // the new loop has armed its timer for x
+	close(held.rel)                   // the old loop's slow call returns: it sees its context done and exits
+	pollUntil(dueIn+5*time.Second, func() bool { return ran.Load() > 0 })
+	res.Fired = ran.Load()
+	res.WaitOK = true
+	return res
 }
